@@ -2,12 +2,13 @@
 # ./seedtest.sh <patch.diff> <ID> [tier]  — applies a seeded change to a scratch worktree of /repo's HEAD (never to
 # /repo itself), runs the check against that worktree, removes the worktree.
 P=$1; ID=$2; TIER=${3:-quick}
+V=$(cd "$(dirname "$0")" && pwd)
 WT=/tmp/seedwt-$$
 git -C /repo worktree add -q --detach $WT HEAD || exit 9
-cleanup() { git -C /repo worktree remove --force $WT 2>/dev/null; rm -rf /verif/.bin/alt-$(echo $WT | tr '/' '_'); }
+cleanup() { git -C /repo worktree remove --force $WT 2>/dev/null; rm -rf $V/.bin/alt-$(echo $WT | tr '/' '_'); }
 trap cleanup EXIT
 ( cd $WT && git apply "$P" ) || { echo "patch does not apply"; exit 9; }
-VERIF_REPO=$WT VERIF_NO_EVIDENCE=1 /verif/check "$ID" "$TIER" > /tmp/seedtest.$$.log 2>&1; rc=$?
+VERIF_REPO=$WT VERIF_NO_EVIDENCE=1 $V/check "$ID" "$TIER" > /tmp/seedtest.$$.log 2>&1; rc=$?
 grep -E "^(VIOLATION|KNOWN-FINDING|BUILD-FAILED|C[0-9]+ )" /tmp/seedtest.$$.log | cut -c1-220 | head -8
 grep -A1 "^--- " /tmp/seedtest.$$.log | cut -c1-300 | head -6
 rm -f /tmp/seedtest.$$.log
